@@ -239,7 +239,9 @@ def _assemble(V):
     I.stubs["molli.math.distance:_optimize_rotation"] = lambda I_, f, a, k: NP.mk([[1.0, 0.0, 0.0], [0.0, 1.0, 0.0], [0.0, 0.0, 1.0]], "float")
     # which atoms end up bonded does not depend on the geometry: any matrix stands for the two rotation helpers
     I.stubs["molli.math.rotation:rotation_matrix_from_vectors"] = lambda I_, f, a, k: NP.mk([[1.0, 0.0, 0.0], [0.0, 1.0, 0.0], [0.0, 0.0, 1.0]], "float")
-    order = (0, 3, 4)          # ascending, as molli combine passes them (indices of core.attachment_points)
+    # ascending, as molli combine passes them (indices of core.attachment_points): all of them, or the subset the user selected with -a
+    sel = V.choose(["all", "subset"], "attachment-points-used")
+    order = (0, 3, 4) if sel == "all" else (3, 4)
 
     def mol(name, els, bonds, aps):
         m = M.mk_mol(V, "Molecule", len(els), bonds, name=name, full=False, labels="sym")
@@ -252,8 +254,8 @@ def _assemble(V):
         return m
     # X0-C1-Si2(-X3)-P5-X4 : the three attachment points have three different neighbours (C, Si, P)
     core = mol("core", ("Unknown", "C", "Si", "Unknown", "Unknown", "P"), ((0, 1), (1, 2), (2, 3), (2, 5), (5, 4)), (0, 3, 4))
-    subs = [mol(f"s{k}", ("Unknown", el), ((0, 1),), (0,)) for k, el in enumerate(("N", "O", "F"))]
-    V.witness(lambda ev: {"op": "assemble", "core_aps": list(order), "signature": "assemble"})
+    subs = [mol(f"s{k}", ("Unknown", el), ((0, 1),), (0,)) for k, el in enumerate(("N", "O", "F")[:len(order)])]
+    V.witness(lambda ev: {"op": "assemble", "core_aps": list(order), "signature": f"assemble/{sel}"})
     V.cover()
     out = V.call("molli.scripts.combine:_ml_assemble", [core, tuple(order), ListV([tuple(subs)])], {"hadd": False})
     ok = out.returned and isinstance(out.value, DictV) and len(out.value.vals) == 1
@@ -262,8 +264,13 @@ def _assemble(V):
         return
     prod = out.value.vals[0]
     al = prod.fields["_atoms"].items
-    V.ensure("assemble/product-has-no-attachment-point-left", z3.BoolVal(len(al) == 6 and all(getattr(a.fields["atype"], "name", "") != "AttachmentPoint" for a in al)))
+    n_ap_left = sum(1 for a in al if getattr(a.fields["atype"], "name", "") == "AttachmentPoint")
+    V.ensure("assemble/product-has-no-attachment-point-left", z3.BoolVal(len(al) == 6 and n_ap_left == (0 if sel == "all" else 1)))
     name = lambda a: getattr(a.fields["element"], "name", None)
     got = sorted(tuple(sorted((name(b.fields["a1"]), name(b.fields["a2"])))) for b in prod.fields["_bonds"].items)
-    want = sorted(tuple(sorted(p_)) for p_ in (("C", "Si"), ("Si", "P"), ("C", "N"), ("Si", "O"), ("P", "F")))
+    if sel == "all":
+        want = sorted(tuple(sorted(p_)) for p_ in (("C", "Si"), ("Si", "P"), ("C", "N"), ("Si", "O"), ("P", "F")))
+    else:
+        # attachment point 0 (on C) was not selected and stays; N goes where AP 3 was (on Si), O where AP 4 was (on P)
+        want = sorted(tuple(sorted(p_)) for p_ in (("C", "Si"), ("Si", "P"), ("C", "Unknown"), ("Si", "N"), ("P", "O")))
     V.ensure("assemble/substituent-k-is-bonded-where-attachment-point-k-was", z3.BoolVal(got == want), got=str(got), want=str(want))
